@@ -606,6 +606,12 @@ func c09ParamIsWindow(p *Prog, r *c09Roles, f *ssa.Function, prm *ssa.Parameter,
 					}
 				}
 			}
+			if hc, ok := arg.(*ssa.Call); ok {
+				// a helper with a single result: the window it has just installed
+				if h := p.CallOf(hc).Static; h != nil && h.Signature.Results().Len() == 1 && c09HelperReturnsInstalled(p, h, 0, wf) {
+					return
+				}
+			}
 			if u, ok := arg.(*ssa.UnOp); ok {
 				if fr, _, ok := fieldPointerLoad(u.X); ok && sameField(fr, wf) {
 					return
